@@ -8,10 +8,10 @@ hook_commits = [l.strip() for l in open(os.path.join(ROOT, "tools/hook_commits.t
 
 T = {
  "C01": ("exploration", "session", "history checker over boundary event log vs. simulated MPD server (reply = pure function of request id)",
-         "Runs the real tokio client against a simulated MPD server on a paused-clock current-thread runtime with seeded select!; every request carries a unique id and the reply is recomputed from it; checks own-reply, per-caller order, partial list failure, undisturbed others under cancellation; directed scenarios, bounded-exhaustive timing grids, random ones (back-pressure, dropped / unpolled events receiver, stalled shutdown, password connects), a server that rejects idle, a flood of 129-1000 simultaneous requests, servers announcing versions of many shapes (protocol_version() must be verbatim), real-thread stress in the thorough tier. Every error value handed to a caller is printed and its source chain followed. Every third case runs under a TRACE tracing subscriber. Holds on the explored schedules only.",
+         "Runs the real tokio client against a simulated MPD server on a paused-clock current-thread runtime with seeded select!; every request carries a unique id and the reply is recomputed from it; checks own-reply, per-caller order, partial list failure, undisturbed others under cancellation; directed scenarios, bounded-exhaustive timing grids, random ones (back-pressure, dropped / unpolled events receiver, stalled shutdown, password connects), a server that rejects idle, a flood of 129-1000 simultaneous requests, byte-identical `status` requests from several callers at once (the server numbers its replies: no two calls may share one), servers announcing versions of many shapes (protocol_version() must be verbatim), real-thread stress in the thorough tier. Every error value handed to a caller is printed and its source chain followed. Every third case runs under a TRACE tracing subscriber. Holds on the explored schedules only.",
          "Simulated transport/server (harness) model MPD's idle/noidle/command-list semantics; schedules are those of a cooperative single-thread executor plus real-thread stress in the thorough tier."),
  "C02": ("exploration", "wire", "metamorphic differential monitor (segmentation independence) + receive-buffer invariant hook",
-         "Every generated stream is decoded whole (reference) and under byte-wise, random k-way and (exhaustive or edge-windowed) 2-way splits on the blocking and async connections; results must be identical; 'exact-fill' streams (complete responses ending exactly where the receive buffer is full, then a silent peer) must come out completely, also when read in one piece on the async connection; buffer bookkeeping invariants asserted at the verif-hooks probes. Sampled streams, exhaustive split points for short streams.",
+         "Every generated stream is decoded whole (reference) and under byte-wise, random k-way and (exhaustive or edge-windowed) 2-way splits on the blocking and async connections; results must be identical; 'exact-fill' streams (complete responses ending exactly where the receive buffer is full, then a silent peer) and responses of thousands of very short lines delivered in one read must come out completely, also when read in one piece on the async connection; buffer bookkeeping invariants asserted at the verif-hooks probes. Sampled streams, exhaustive split points for short streams.",
          "Read boundary forced after the greeting line; whole-stream blocking run is the reference."),
  "C03": ("exploration", "wire", "reference-encoder round-trip monitor",
          "Random abstract sessions are serialised by an independent reference encoder and must be decoded by the real connections into exactly the same frames/fields/binary/error, followed by Ok(None).",
@@ -41,7 +41,7 @@ T = {
          "Random trees (depth/width <= 6) and exhaustive short values over the special alphabet, through find/count/list and eight longer builder paths; parsed expression must equal the mirror tree modulo AND flattening; filters built from intermediates that were rendered / cloned before must denote the same; a filter with a line feed in a value must be refused or sent faithfully by all eleven paths, never written altered or left out.",
          "Port of MPD song/Filter.cxx ParseExpression (trusted base)."),
  "C12": ("exploration", "typed", "panic monitor (catch_unwind in child processes) over every command x frame source, both feature builds",
-         "Every predefined command and typed list shape is fed its own, foreign, mutated and edge-valued frames produced by the real parser; result and all accessors must return without panic; directed grid (every field x every edge value, once more with another key absent), requests with parameters at the top of their domain, 20-40 thousand-line replies on a 256 KiB stack.",
+         "Every predefined command and typed list shape is fed its own, foreign, mutated and edge-valued frames produced by the real parser; result and all accessors must return without panic; directed grid (every field x every edge value, once more with another key absent), requests with parameters at the top of their domain, long multi-byte values whose usual cut-off lengths fall inside a character, 20-40 thousand-line replies on a 256 KiB stack.",
          "Frames can only come from the real parser, so keys outside its alphabet cannot be produced."),
  "C13": ("exploration", "cmd+session", "wire-grammar monitor for list framing + token-pairing monitor through the client",
          "Lists of 1-50 raw commands (built through new/command/add and Extend from exact-size, filter/flat_map/from_fn, chained and empty iterators; one case in four after failed writes on another connection of the same thread) compared byte-wise with individually rendered lines; lists of 2-33 MiB are still one block; typed tuples of every arity 1-8 and vectors executed against the simulated server whose replies carry a token of the command's own argument.",
